@@ -430,26 +430,34 @@ class Circuit:
         It must not be empty.
         """
         assert btt_list
+        btt_list = list(btt_list)
         errcnt = 0
         get_time = asyncio.get_running_loop().time
         start_time = get_time()
-        for blk, task, timeout in sorted(btt_list, key=operator.itemgetter(2), reverse=True):
-            # sorted from longest timeout
-            if not task.done():
-                try:
-                    await asyncio.wait_for(task, timeout - get_time() + start_time)
-                except asyncio.TimeoutError:
-                    errcnt += 1
-                    blk.log_warning(
-                        "%s timeout, check timeout value (%.1f s)", jobname, timeout)
-                except Exception:
-                    # will be logged below
-                    pass
-            if not task.cancelled():
-                if (err := task.exception()) is not None:
-                    errcnt += 1
-                    blk.log_error("%s error: %s", jobname, err, exc_info=err)
-                    err = None  # break a reference cycle
+        try:
+            for blk, task, timeout in sorted(btt_list, key=operator.itemgetter(2), reverse=True):
+                # sorted from longest timeout
+                if not task.done():
+                    try:
+                        await asyncio.wait_for(task, timeout - get_time() + start_time)
+                    except asyncio.TimeoutError:
+                        errcnt += 1
+                        blk.log_warning(
+                            "%s timeout, check timeout value (%.1f s)", jobname, timeout)
+                    except Exception:
+                        # will be logged below
+                        pass
+                if not task.cancelled():
+                    if (err := task.exception()) is not None:
+                        errcnt += 1
+                        blk.log_error("%s error: %s", jobname, err, exc_info=err)
+                        err = None  # break a reference cycle
+        finally:
+            # when cancelled, wait_for() cancels only the task being awaited;
+            # do not let the other tasks outlive the simulation
+            for _, task, _ in btt_list:
+                if not task.done():
+                    task.cancel()
         if errcnt:
             _logger.error("%d block %s error(s) suppressed", errcnt, jobname)
 
